@@ -11,22 +11,90 @@ open Py
 
 namespace Contracts.Serialize
 
+/-! ### generic helpers -/
+
+/-- a `for` loop whose body never fails, breaks or returns is a left fold -/
+theorem forIn_yield {α σ : Type} (l : List α) (body : α → σ → M (ForInStep σ)) (g : σ → α → σ)
+    (h : ∀ x s, body x s = .ok (.yield (g s x))) (acc : σ) :
+    forIn l acc body = .ok (l.foldl g acc) := by
+  induction l generalizing acc with
+  | nil => simp
+  | cons x l ih => simp only [List.forIn_cons, h, ok_bind, ih, List.foldl_cons]
+
+theorem foldl_append_flatten {α : Type} (f : α → Str) (l : List α) (acc : Str) :
+    l.foldl (fun s x => s ++ f x) acc = acc ++ (l.map f).flatten := by
+  induction l generalizing acc with
+  | nil => simp
+  | cons x l ih => simp [ih]
+
 /-! ### edge list -/
 def normEdge (e : Int × Int) : Int × Int := (min e.1 e.2, max e.1 e.2)
 def renderEdge (e : Int × Int) : Str :=
   py!"(" ++ pyStrInt (e.1 + 1) ++ py!"-" ++ pyStrInt (e.2 + 1) ++ py!")"
 def edgeListSpec (m : Graph) : Str := ((sorted (m.edges.map normEdge)).map renderEdge).flatten
 
+theorem join_nil (l : List Str) : join [] l = l.flatten := by
+  unfold join List.intercalate
+  induction l with
+  | nil => rfl
+  | cons a l ih =>
+    cases l with
+    | nil => simp
+    | cons b l => simpa [List.intersperse] using ih
+
+/-- the two-element list of a pair -/
+def pairList (p : Int × Int) : List Int := [p.1, p.2]
+
+theorem sorted_pair (e : Int × Int) : sorted [e.1, e.2] = pairList (normEdge e) := by
+  obtain ⟨a, b⟩ := e
+  simp only [sorted, List.mergeSort, POrd.lt, pairList, normEdge]
+  simp [List.merge]
+  split <;> simp <;> omega
+
+theorem lt_pairList (p q : Int × Int) : POrd.lt (pairList p) (pairList q) = POrd.lt p q := by
+  obtain ⟨a, b⟩ := p
+  obtain ⟨c, d⟩ := q
+  simp only [POrd.lt, pairList, lexLt]
+  by_cases h1 : a < c <;> by_cases h2 : c < a <;> by_cases h3 : b < d <;> simp [*]
+
+theorem sorted_map_pairList (l : List (Int × Int)) :
+    sorted (l.map pairList) = (sorted l).map pairList := by
+  unfold sorted
+  rw [List.map_mergeSort]
+  intro a _ b _
+  rw [lt_pairList]
+
 theorem write_edge_list_ok (env : DepEnv) (m : Graph) :
-    Tucan.serialization._write_edge_list env m = .ok (edgeListSpec m) := sorry
+    Tucan.serialization._write_edge_list env m = .ok (edgeListSpec m) := by
+  unfold Tucan.serialization._write_edge_list
+  rw [listComp_ok _ _ (fun e => some (pairList (normEdge e)))
+    (by intro e _; simp only [pyIter_pair, pure_eq_ok, sorted_pair])]
+  simp only [ok_bind, pyIter_list, List.filterMap_eq_map']
+  have h : List.map (fun x => pairList (normEdge x)) m.edges = (m.edges.map normEdge).map pairList := by
+    simp [List.map_map]
+  rw [h, sorted_map_pairList,
+    listComp_ok _ _ (fun l => some (renderEdge (l.headD 0, (l.tail).headD 0)))]
+  · simp only [ok_bind, pure_eq_ok, join_nil, edgeListSpec, List.filterMap_eq_map', List.map_map]
+    rfl
+  · intro l hl
+    obtain ⟨p, _, rfl⟩ := List.mem_map.1 hl
+    rfl
 
 /-- layout: every printed tuple has `a < b` when the graph has no self-loop -/
 theorem edge_list_lt (m : Graph) (hloop : ∀ e ∈ m.edges, e.1 ≠ e.2) :
-    ∀ e ∈ sorted (m.edges.map normEdge), e.1 < e.2 := sorry
+    ∀ e ∈ sorted (m.edges.map normEdge), e.1 < e.2 := by
+  intro e he
+  rw [sorted, List.mem_mergeSort] at he
+  obtain ⟨p, hp, rfl⟩ := List.mem_map.1 he
+  have := hloop p hp
+  simp only [normEdge]
+  omega
+
 /-- layout: tuples strictly ascending (hence each bond exactly once) when the graph lists each
 unordered pair once -/
 theorem edge_list_strict (m : Graph) (hnodup : (m.edges.map normEdge).Nodup) :
-    (sorted (m.edges.map normEdge)).Pairwise (fun a b => POrd.lt a b = true) := sorry
+    (sorted (m.edges.map normEdge)).Pairwise (fun a b => POrd.lt a b = true) :=
+  sorted_strict_of_nodup hnodup
 
 /-! ### attribute blocks -/
 def renderProps (attrs : Attrs) : List Str :=
@@ -37,8 +105,41 @@ def renderBlock (p : Int × Attrs) : Str :=
     py!"(" ++ pyStrInt (p.1 + 1) ++ py!":" ++ join py!"," (renderProps p.2) ++ py!")"
 def nodeAttrsSpec (m : Graph) : Str := ((sortedKey Prod.fst m.nodesData).map renderBlock).flatten
 
+theorem sorted_nodes_eq (l : List (Int × Attrs)) : sorted l = sortedKey Prod.fst l := by
+  unfold sorted sortedKey
+  congr 1
+  funext a b
+  simp only [POrd.lt]
+  by_cases h1 : b.1 < a.1 <;> by_cases h2 : a.1 < b.1 <;> simp [*]
+
+theorem getItem_dict {ν} (d : Dict String ν) (k : String) :
+    getItem d k = match d.get? k with | some v => Except.ok v | Option.none => Except.error Err.key := rfl
+
+theorem available_attrs_ok (attrs : Attrs) :
+    (listComp (pyIter Tucan.Consts._SERIALIZER_NODE_ATTRIBUTE_MAPPING) (fun attr => do
+      if (pyContains attr attrs) then (do return some (pyStr (← getItem Tucan.Consts._SERIALIZER_NODE_ATTRIBUTE_MAPPING attr) ++ py!"=" ++ pyStr (← getItem attrs attr))) else return Option.none))
+    = .ok (renderProps attrs) := by
+  simp only [pyIter_dict, Tucan.Consts._SERIALIZER_NODE_ATTRIBUTE_MAPPING, List.map, listComp, pyContains_dict,
+    Dict.contains, renderProps, List.filterMap, getItem_dict]
+  have e1 : Dict.get? (⟨[("mass", py!"mass"), ("rad", py!"rad")]⟩ : Dict String Str) "mass" = some py!"mass" := by decide
+  have e2 : Dict.get? (⟨[("mass", py!"mass"), ("rad", py!"rad")]⟩ : Dict String Str) "rad" = some py!"rad" := by decide
+  simp only [e1, e2]
+  cases attrs.get? "mass" <;> cases attrs.get? "rad" <;> rfl
+
 theorem write_node_attributes_ok (env : DepEnv) (m : Graph) :
-    Tucan.serialization._write_node_attributes env m = .ok (nodeAttrsSpec m) := sorry
+    Tucan.serialization._write_node_attributes env m = .ok (nodeAttrsSpec m) := by
+  unfold Tucan.serialization._write_node_attributes
+  simp only [pure_eq_ok, pyIter_list]
+  rw [forIn_yield (g := fun s x => s ++ renderBlock x)]
+  · simp only [ok_bind, foldl_append_flatten, nodeAttrsSpec, sorted_nodes_eq, List.nil_append]
+  · intro x s
+    have h := available_attrs_ok x.2
+    simp only [pure_eq_ok] at h ⊢
+    simp only [h, ok_bind]
+    by_cases hp : renderProps x.2 = []
+    · simp [hp, truthy, Truthy.truthy, renderBlock]
+    · have : (renderProps x.2).isEmpty = false := by simpa using hp
+      simp [truthy, Truthy.truthy, this, renderBlock, hp, pyStr, PyStr.pyStr]
 
 /-! ### sum formula -/
 def renderElem (s : Str) (n : Int) : Str := if n > 1 then s ++ pyStrInt n else s
@@ -53,10 +154,262 @@ def symbolsOf (m : Graph) : List Str := (Dict.values (Graph.getNodeAttributes m 
 def sumFormulaSpec (m : Graph) : Str :=
   ((hillOrder (symbolsOf m)).map (fun s => renderElem s ((symbolsOf m).count s))).flatten
 
+section dict
+variable {κ : Type} [DecidableEq κ]
+
+theorem lookup_map_pair (c : κ → Int) (ks : List κ) (k : κ) :
+    List.lookup k (ks.map (fun s => (s, c s))) = if k ∈ ks then some (c k) else none := by
+  induction ks with
+  | nil => simp
+  | cons a ks ih =>
+    simp only [List.map_cons, List.lookup_cons, ih, List.mem_cons]
+    by_cases h : k = a
+    · subst h; simp
+    · have : (k == a) = false := by simpa using h
+      simp [this, h]
+
+theorem counter_snoc (xs : List κ) (x : κ) :
+    counter (xs ++ [x]) = (counter xs).set x ((counter xs).getD x 0 + 1) := by
+  simp [counter, List.foldl_append]
+
+theorem counter_items (xs : List κ) : ∃ ks : List κ, ks.Nodup ∧ (∀ s, s ∈ ks ↔ s ∈ xs) ∧
+    (counter xs).items = ks.map (fun s => (s, (xs.count s : Int))) := by
+  induction xs using List.reverseRecOn with
+  | nil => exact ⟨[], by simp, by simp, rfl⟩
+  | append_singleton l a ih =>
+    obtain ⟨ks, hnd, hmem, hit⟩ := ih
+    have hget : (counter l).get? a = if a ∈ ks then some (l.count a : Int) else none := by
+      simp only [Dict.get?, hit, lookup_map_pair]
+    rw [counter_snoc]
+    by_cases ha : a ∈ ks
+    · refine ⟨ks, hnd, ?_, ?_⟩
+      · intro s; simp only [hmem, List.mem_append, List.mem_singleton]
+        constructor
+        · exact Or.inl
+        · rintro (h | rfl)
+          · exact h
+          · exact (hmem _).1 ha
+      · simp only [Dict.set, Dict.contains, Dict.getD, hget, ha, if_true, Option.isSome_some, hit, List.map_map,
+          Option.getD_some]
+        apply List.map_congr_left
+        intro s _
+        by_cases hs : s = a
+        · subst hs; simp [List.count_append]
+        · simp [hs, Ne.symm hs, List.count_append]
+    · refine ⟨ks ++ [a], ?_, ?_, ?_⟩
+      · rw [List.nodup_append]
+        refine ⟨hnd, by simp, ?_⟩
+        intro x hx y hy
+        simp only [List.mem_singleton] at hy
+        subst hy
+        rintro rfl
+        exact ha hx
+      · intro s; simp [hmem]
+      · have hal : a ∉ l := fun h => ha ((hmem _).2 h)
+        simp only [Dict.set, Dict.contains, Dict.getD, hget, ha, if_false, Option.isSome_none, hit,
+          Option.getD_none, List.map_append, List.map_cons, List.map_nil, Bool.false_eq_true]
+        refine congrArg₂ (· ++ ·) ?_ ?_
+        · apply List.map_congr_left
+          intro s hs
+          have : a ≠ s := fun h => ha (h ▸ hs)
+          simp [List.count_append, this]
+        · simp [List.count_append, List.count_eq_zero_of_not_mem hal]
+
+theorem count_cast_pos (xs : List κ) (a : κ) (h : a ∈ xs) : (0 : Int) < (xs.count a : Int) := by
+  have := List.count_pos_iff.2 h; omega
+
+theorem ofPairs_items_aux (c : κ → Int) (ks2 ks1 : List κ) (d : Dict κ Int)
+    (hd : d.items = ks1.map (fun s => (s, c s))) (h : (ks1 ++ ks2).Nodup) :
+    ((ks2.map (fun s => (s, c s))).foldl (fun d p => d.set p.1 p.2) d).items
+      = (ks1 ++ ks2).map (fun s => (s, c s)) := by
+  induction ks2 generalizing ks1 d with
+  | nil => simp [hd]
+  | cons k ks2 ih =>
+    have hk : k ∉ ks1 := by
+      intro hmem
+      exact (List.nodup_append.1 h).2.2 _ hmem k (by simp) rfl
+    have hc : d.contains k = false := by
+      simp [Dict.contains, Dict.get?, hd, lookup_map_pair, hk]
+    simp only [List.map_cons, List.foldl_cons]
+    rw [ih (ks1 ++ [k])]
+    · simp
+    · simp [Dict.set, hc, hd]
+    · simpa using h
+
+theorem ofPairs_items (c : κ → Int) (ks : List κ) (h : ks.Nodup) :
+    (Dict.ofPairs (ks.map (fun s => (s, c s)))).items = ks.map (fun s => (s, c s)) := by
+  have := ofPairs_items_aux c ks [] Dict.empty rfl (by simpa using h)
+  simpa [Dict.ofPairs] using this
+
+theorem erase_items (c : κ → Int) (ks : List κ) (d : Dict κ Int) (k : κ)
+    (hd : d.items = ks.map (fun s => (s, c s))) :
+    (d.erase k).items = (ks.filter (fun s => s ≠ k)).map (fun s => (s, c s)) := by
+  simp only [Dict.erase, hd, List.filter_map]
+  rfl
+
+end dict
+
+/-- sorting `(key, value)` pairs built from a function of the key is sorting the keys -/
+theorem sorted_map_pair (c : Str → Int) (ks : List Str) :
+    sorted (ks.map (fun s => (s, c s))) = (sorted ks).map (fun s => (s, c s)) := by
+  unfold sorted
+  rw [List.map_mergeSort]
+  intro a _ b _
+  simp only [POrd.lt]
+  by_cases hab : a = b
+  · subst hab
+    have h1 := LawfulPOrd.irrefl a
+    simp only [POrd.lt] at h1
+    simp [h1]
+  · rcases LawfulPOrd.total a b hab with h | h
+    · simp only [POrd.lt] at h
+      simp [h]
+    · simp only [POrd.lt] at h
+      simp [h]
+
+/-- the final loop of `_write_sum_formula` over a dict whose items are `(key, c key)` -/
+theorem tail_loop (c : Str → Int) (ks : List Str) (hnd : ks.Nodup) (d : Dict Str Int)
+    (hd : d.items = ks.map (fun s => (s, c s))) (acc : Str) :
+    (forIn (Dict.ofPairs (sorted d.items)).items acc fun x __s =>
+      (Except.ok (ForInStep.yield (pyAdd __s (if pyGt x.2 (1 : Int) = true then pyStr x.1 ++ pyStr x.2 else x.1))) : M _))
+    = .ok (acc ++ ((sorted ks).map (fun s => renderElem s (c s))).flatten) := by
+  have hnd' : (sorted ks).Nodup := (List.mergeSort_perm ks _).nodup_iff.2 hnd
+  rw [hd, sorted_map_pair, ofPairs_items _ _ hnd',
+    forIn_yield (g := fun s x => s ++ renderElem x.1 x.2) (h := ?_), foldl_append_flatten, List.map_map]
+  · rfl
+  · intro x s
+    simp [renderElem, pyGt, PyCmp.gt, POrd.lt, pyStr, PyStr.pyStr]
+
+theorem get?_of_items (c : Str → Int) (ks : List Str) (d : Dict Str Int)
+    (hd : d.items = ks.map (fun s => (s, c s))) (k : Str) :
+    d.get? k = if k ∈ ks then some (c k) else none := by
+  simp only [Dict.get?, hd, lookup_map_pair]
+  congr
+
+theorem truthy_some_pos (n : Int) (h : 0 < n) : truthy (some n) = true := by
+  simp only [truthy, Truthy.truthy]
+  exact decide_eq_true (by omega)
+theorem truthy_none_int : truthy (Option.none : Option Int) = false := rfl
+theorem pyGt_some_one (n : Int) : pyGt (some n) (1 : Int) = decide (n > 1) := rfl
+theorem pyStr_some_int (n : Int) : pyStr (some n) = pyStrInt n := rfl
+
+theorem filter_CH (l : List Str) :
+    (l.filter (fun s => s ≠ py!"C")).filter (fun s => s ≠ py!"H")
+      = l.filter (fun s => s ≠ py!"C" ∧ s ≠ py!"H") := by
+  rw [List.filter_filter]
+  congr 1
+  funext s
+  by_cases h1 : s = py!"C" <;> by_cases h2 : s = py!"H" <;> simp [h1, h2]
+
+/-- `List.count` on strings does not depend on which of the two (lawful) `BEq` instances is used -/
+theorem count_inst (xs : List Str) (s : Str) :
+    xs.count s = @List.count Str instBEqOfDecidableEq s xs := by
+  unfold List.count
+  apply List.countP_congr
+  intro x _
+  simp
+
 theorem write_sum_formula_ok (env : DepEnv) (m : Graph) :
-    Tucan.serialization._write_sum_formula env m = .ok (sumFormulaSpec m) := sorry
+    Tucan.serialization._write_sum_formula env m = .ok (sumFormulaSpec m) := by
+  unfold Tucan.serialization._write_sum_formula sumFormulaSpec
+  simp only [pure_eq_ok, count_inst]
+  have hx : List.map Val.asStr (Graph.getNodeAttributes m "element_symbol").values = symbolsOf m := rfl
+  rw [hx]
+  generalize symbolsOf m = xs
+  obtain ⟨ks, hnd, hmem, hit⟩ := counter_items xs
+  have hperm : ks.Perm xs.dedup :=
+    (List.perm_ext_iff_of_nodup hnd (List.nodup_dedup xs)).2 (fun a => by simp [hmem])
+  have hC := get?_of_items _ _ _ hit py!"C"
+  have hitC := erase_items _ _ _ py!"C" hit
+  have hH := get?_of_items _ _ _ hitC py!"H"
+  have hitH := erase_items _ _ _ py!"H" hitC
+  have pop1 : ∀ (d : Dict Str Int) k, (d.pop? k).1 = d.get? k := fun _ _ => rfl
+  have pop2 : ∀ (d : Dict Str Int) k, (d.pop? k).2 = d.erase k := fun _ _ => rfl
+  simp only [pop1, pop2]
+  rw [tail_loop _ _ ((hnd.filter _).filter _) _ hitH, tail_loop _ _ ((hnd.filter _).filter _) _ hitH,
+    tail_loop _ _ (hnd.filter _) _ hitC]
+  have hsort : ∀ p : Str → Bool, sorted (ks.filter p) = sorted (xs.dedup.filter p) :=
+    fun p => sorted_perm (hperm.filter p)
+  have hCd : py!"C" ∈ xs.dedup ↔ py!"C" ∈ ks := by simp [hmem]
+  have hHd : py!"H" ∈ xs.dedup ↔ py!"H" ∈ ks := by simp [hmem]
+  have hHf : py!"H" ∈ ks.filter (fun s => s ≠ py!"C") ↔ py!"H" ∈ ks := by simp
+  simp only [hH, hC, filter_CH, hsort, hillOrder, hCd, hHd, hHf, ok_bind, pyAdd_list, List.nil_append]
+  by_cases hc : py!"C" ∈ ks
+  · have hc1 := count_cast_pos xs _ ((hmem _).1 hc)
+    simp only [hc, if_true, truthy_some_pos _ hc1, pyGt_some_one, pyStr_some_int]
+    by_cases hh : py!"H" ∈ ks
+    · have hh1 := count_cast_pos xs _ ((hmem _).1 hh)
+      simp only [hh, if_true, truthy_some_pos _ hh1, pyGt_some_one, pyStr_some_int]
+      simp [renderElem]
+    · simp only [hh, if_false, truthy_none_int]
+      simp [renderElem]
+  · simp only [hc, if_false, truthy_none_int]
+    have : xs.dedup.filter (fun s => s ≠ py!"C") = xs.dedup := by
+      rw [List.filter_eq_self]
+      intro a ha
+      have : a ≠ py!"C" := fun h => hc (hCd.1 (h ▸ ha))
+      simpa using this
+    simp only [this, Bool.false_eq_true, if_false]
 
 /-- the formula accounts for every atom that has an element symbol -/
-theorem hillOrder_perm (syms : List Str) : (hillOrder syms).Perm syms.dedup := sorry
+theorem hillOrder_perm (syms : List Str) : (hillOrder syms).Perm syms.dedup := by
+  unfold hillOrder
+  have hd := List.nodup_dedup syms
+  generalize syms.dedup = d at hd
+  simp only
+  by_cases hc : py!"C" ∈ d
+  · simp only [hc, if_true]
+    have hs : (sorted (d.filter (fun s => s ≠ py!"C" ∧ s ≠ py!"H"))).Perm
+        (d.filter (fun s => s ≠ py!"C" ∧ s ≠ py!"H")) := List.mergeSort_perm _ _
+    rw [List.perm_ext_iff_of_nodup _ hd]
+    · intro a
+      by_cases hh : py!"H" ∈ d
+      · simp only [hh, if_true, List.mem_cons, List.mem_append, hs.mem_iff, List.mem_filter, List.not_mem_nil,
+          or_false, decide_eq_true_eq]
+        constructor
+        · rintro (rfl | rfl | h)
+          · exact hc
+          · exact hh
+          · exact h.1
+        · intro h
+          by_cases h1 : a = py!"C"
+          · exact Or.inl h1
+          · by_cases h2 : a = py!"H"
+            · exact Or.inr (Or.inl h2)
+            · exact Or.inr (Or.inr ⟨h, h1, h2⟩)
+      · simp only [hh, if_false, List.mem_cons, List.nil_append, hs.mem_iff, List.mem_filter, decide_eq_true_eq]
+        constructor
+        · rintro (rfl | h)
+          · exact hc
+          · exact h.1
+        · intro h
+          by_cases h1 : a = py!"C"
+          · exact Or.inl h1
+          · have h2 : a ≠ py!"H" := fun e => hh (e ▸ h)
+            exact Or.inr ⟨h, h1, h2⟩
+    · have hsn : (sorted (d.filter (fun s => s ≠ py!"C" ∧ s ≠ py!"H"))).Nodup :=
+        hs.nodup_iff.2 (hd.filter _)
+      have hC' : py!"C" ∉ sorted (d.filter (fun s => s ≠ py!"C" ∧ s ≠ py!"H")) := by
+        rw [hs.mem_iff]; simp
+      have hH' : py!"H" ∉ sorted (d.filter (fun s => s ≠ py!"C" ∧ s ≠ py!"H")) := by
+        rw [hs.mem_iff]; simp
+      rw [List.nodup_cons]
+      by_cases hh : py!"H" ∈ d
+      · simp only [hh, if_true, List.singleton_append, List.nodup_cons, List.mem_cons]
+        refine ⟨?_, hH', hsn⟩
+        rintro (h | h)
+        · exact absurd h (by decide)
+        · exact hC' h
+      · simp only [hh, if_false, List.nil_append]
+        exact ⟨hC', hsn⟩
+  · simp only [hc, if_false]
+    exact List.mergeSort_perm _ _
 
 end Contracts.Serialize
+
+#print axioms Contracts.Serialize.write_edge_list_ok
+#print axioms Contracts.Serialize.edge_list_lt
+#print axioms Contracts.Serialize.edge_list_strict
+#print axioms Contracts.Serialize.write_node_attributes_ok
+#print axioms Contracts.Serialize.write_sum_formula_ok
+#print axioms Contracts.Serialize.hillOrder_perm
